@@ -695,7 +695,7 @@ impl<H: HashAlgorithm> Runner<H> {
                 let mut r = guarded(|| Nomt::<H>::open(cfg.options(&self.dir)));
                 let mut tries = 0;
                 while let Ok(Err(e)) = &r {
-                    if tries >= 200 || !format!("{:#}", e).contains("lock") {
+                    if tries >= 200 || !(format!("{:#}", e).contains("lock") || crate::util::dir_lock_busy(&self.dir)) {
                         break;
                     }
                     tries += 1;
